@@ -123,8 +123,15 @@ func propC11Sequential(t *rapid.T) {
 	thv := th
 	core, logs := observer.New(zap.LevelEnablerFunc(func(l zapcore.Level) bool { return l >= thv }))
 	var hooks []c11Dec
+	// what the sampler wraps may itself be a tee (a slice-typed core: not comparable with ==) of the observed core
+	// and a second destination with the same threshold
+	var wrapped zapcore.Core = core
+	if rapid.IntRange(0, 2).Draw(t, "wrappedIsTee") == 0 {
+		second, _ := observer.New(zap.LevelEnablerFunc(func(l zapcore.Level) bool { return l >= thv }))
+		wrapped = zapcore.NewTee(core, second)
+	}
 	mk := func() zapcore.Core {
-		return zapcore.NewSamplerWithOptions(core, time.Duration(tick), n, m, zapcore.SamplerHook(func(e zapcore.Entry, d zapcore.SamplingDecision) {
+		return zapcore.NewSamplerWithOptions(wrapped, time.Duration(tick), n, m, zapcore.SamplerHook(func(e zapcore.Entry, d zapcore.SamplingDecision) {
 			hooks = append(hooks, c11Dec{e.Message, e.Level, d})
 		}))
 	}
